@@ -62,8 +62,10 @@ Definition do_rm (pinned : bool) (nr nc ts hs tls : list N) : list N :=
     let t := {| nrows := to_N nr; ncols := N.to_nat (to_N nc); tile_size := to_N ts;
                 hdrs := map (fun b => map to_N (csv b)) (bars hs); tiles := tiles |} in
     let m := if pinned then row_storage_map_pinned t else row_storage_map t in
+    let bufs := storage_buffers t in
+    let nr := nrows t in
     let show_row (r : nat) :=
-        join comma (map (fun c => match storage_buffer_with m t (N.of_nat r) c with Ok x => show_cell x | Err e => show_err e end)
+        join comma (map (fun c => match storage_buffer_with m bufs nr (N.of_nat r) c with Ok x => show_cell x | Err e => show_err e end)
                         (seq 0 (ncols t))) in
     join [59] (map show_row (seq 0 (N.to_nat (nrows t))))
   end.
